@@ -37,6 +37,7 @@ OpStats end_op();
 int open_fds();                // descriptors handed out and not yet closed
 int open_unmapped_fds();       // ... of which no live mapping exists (an fd kept for a live region is not a leak)
 int live_mappings();           // mappings handed out and not yet unmapped
+std::vector<uintptr_t> live_mapping_addrs();   // their start addresses
 int double_munmaps();          // munmap() of a range that was handed out by this seam and had already been unmapped
 std::string open_fd_desc();
 uint64_t flaky_fired();
